@@ -132,7 +132,8 @@ func vhOrders(T, k int) [][]int {
 	return out
 }
 
-// p: n, T, k, nops (operation codes 0..nops-1; 9 = {Push, Pop, SetMutex}),
+// p: n, T, k, nops (operation codes 0..nops-1; 9 = {Push, Pop, SetMutex}; 10 =
+// {Push, Pop, Reverse, Reset}),
 // ucap (0 none), fifo (0/1), policy (1 = an accept-all push policy installed)
 func VH_C10(p []int) {
 	n, T, k, nops, ucap := p[0], p[1], p[2], p[3], p[4]
@@ -140,6 +141,8 @@ func VH_C10(p []int) {
 	codes := []int{0, 1, 8}
 	if nops <= 8 {
 		codes = []int{0, 1, 2, 3, 4, 5, 6, 7}[:nops]
+	} else if nops == 10 {
+		codes = []int{0, 1, 6, 7} // Push, Pop, Reverse, Reset
 	}
 	var s Stack
 	if ucap > 0 {
